@@ -5,6 +5,7 @@ package main
 // signingCertificateV2.  notation's dependencies ship only a client.
 
 import (
+	"context"
 	"crypto/ecdsa"
 	"crypto/rand"
 	"crypto/sha256"
@@ -13,6 +14,9 @@ import (
 	"encoding/asn1"
 	"math/big"
 	"time"
+
+	"github.com/notaryproject/tspclient-go"
+	"github.com/notaryproject/tspclient-go/pki"
 )
 
 var (
@@ -44,6 +48,7 @@ type tsaTSTInfo struct {
 	SerialNumber   *big.Int
 	GenTime        time.Time   `asn1:"generalized"`
 	Accuracy       tsaAccuracy `asn1:"optional"`
+	Nonce          *big.Int    `asn1:"optional"`
 }
 
 type tsaTSTInfoNoAcc struct {
@@ -52,6 +57,7 @@ type tsaTSTInfoNoAcc struct {
 	MessageImprint tsaMessageImprint
 	SerialNumber   *big.Int
 	GenTime        time.Time `asn1:"generalized"`
+	Nonce          *big.Int  `asn1:"optional"`
 }
 
 type cmsAttribute struct {
@@ -125,12 +131,22 @@ func newMiniTSA(tag string, misPurposed bool) *miniTSA {
 // token issues a time-stamp token over message with the given generation time and accuracy (seconds).
 func (t *miniTSA) token(message []byte, genTime time.Time, accSeconds int) []byte {
 	h := sha256.Sum256(message)
-	imprint := tsaMessageImprint{HashAlgorithm: pkix.AlgorithmIdentifier{Algorithm: oidSHA256}, HashedMessage: h[:]}
+	return t.tokenFor(tsaMessageImprint{HashAlgorithm: pkix.AlgorithmIdentifier{Algorithm: oidSHA256}, HashedMessage: h[:]}, nil, genTime, accSeconds)
+}
+
+// Timestamp implements tspclient.Timestamper: the library's own signing path can ask this TSA for a countersignature.
+func (t *miniTSA) Timestamp(ctx context.Context, req *tspclient.Request) (*tspclient.Response, error) {
+	imprint := tsaMessageImprint{HashAlgorithm: req.MessageImprint.HashAlgorithm, HashedMessage: req.MessageImprint.HashedMessage}
+	tok := t.tokenFor(imprint, req.Nonce, time.Now(), 1)
+	return &tspclient.Response{Status: pki.StatusInfo{Status: pki.StatusGranted}, TimestampToken: asn1.RawValue{FullBytes: tok}}, nil
+}
+
+func (t *miniTSA) tokenFor(imprint tsaMessageImprint, nonce *big.Int, genTime time.Time, accSeconds int) []byte {
 	var eContent []byte
 	if accSeconds > 0 {
-		eContent = mustDER(tsaTSTInfo{Version: 1, Policy: oidTSAPolicy, MessageImprint: imprint, SerialNumber: nextSerial(), GenTime: genTime.UTC().Truncate(time.Second), Accuracy: tsaAccuracy{Seconds: accSeconds}})
+		eContent = mustDER(tsaTSTInfo{Version: 1, Policy: oidTSAPolicy, MessageImprint: imprint, SerialNumber: nextSerial(), GenTime: genTime.UTC().Truncate(time.Second), Accuracy: tsaAccuracy{Seconds: accSeconds}, Nonce: nonce})
 	} else {
-		eContent = mustDER(tsaTSTInfoNoAcc{Version: 1, Policy: oidTSAPolicy, MessageImprint: imprint, SerialNumber: nextSerial(), GenTime: genTime.UTC().Truncate(time.Second)})
+		eContent = mustDER(tsaTSTInfoNoAcc{Version: 1, Policy: oidTSAPolicy, MessageImprint: imprint, SerialNumber: nextSerial(), GenTime: genTime.UTC().Truncate(time.Second), Nonce: nonce})
 	}
 	leaf := t.chain.Leaf()
 	md := sha256.Sum256(eContent)
